@@ -13,6 +13,14 @@ def run(m):
     try:
         subprocess.run(["rsync", "-a", "--exclude", ".git", "--exclude", "test", "--exclude", "examples",
                         "--exclude", "*.o", "--exclude", "*.lo", "--exclude", ".libs", "/repo/", tmp + "/"], check=True)
+        if m.get("revert"):
+            d = subprocess.run(["git", "-C", "/repo", "show", m["revert"], "--", "src"], stdout=subprocess.PIPE,
+                               universal_newlines=True).stdout
+            r = subprocess.run(["patch", "-R", "-p1", "-s", "-d", tmp], input=d, stdout=subprocess.PIPE,
+                               stderr=subprocess.STDOUT, universal_newlines=True)
+            if r.returncode != 0:
+                return "STALE (cannot revert %s: %s)" % (m["revert"], r.stdout[-200:])
+            return _run_checks(m, tmp)
         p = os.path.join(tmp, m["file"])
         s = open(p).read()
         if m.get("nth"):
@@ -26,6 +34,13 @@ def run(m):
                 return "STALE (old text occurs %d times)" % s.count(m["old"])
             s2 = s.replace(m["old"], m["new"])
         open(p, "w").write(s2)
+        return _run_checks(m, tmp)
+    finally:
+        shutil.rmtree(tmp, ignore_errors=True)
+
+
+def _run_checks(m, tmp):
+    if True:
         # must still compile
         r = subprocess.run(["make", "-C", os.path.join(tmp, "src"), "-j16", "libabt.la"], stdout=subprocess.PIPE,
                            stderr=subprocess.STDOUT, universal_newlines=True)
@@ -44,8 +59,6 @@ def run(m):
             return "ok (silent)" if not bad else "FALSE-ALARM %s" % bad
         hit = any(m["expect"] in o[2] for o in out)
         return ("ok (fires %s)" % m["expect"]) if hit else "MISSED %s (got %s)" % (m["expect"], out)
-    finally:
-        shutil.rmtree(tmp, ignore_errors=True)
 
 
 def main():
